@@ -69,7 +69,7 @@ def c03j_run(tid, wcfg, cfgline, seed):
     c = first_session(w, rec)
     if c is None:
         return rec.lines
-    ph = rnd.choice([0, 3, 4, 7, 10, 30, 45, 90, 180, 65535])
+    ph = rnd.choice([0, 3, 4, 5, 7, 8, 10, 11, 20, 30, 45, 47, 90, 180, 65535])     # every residue of H modulo 3
     o = rec.step({'k': 'msg', 'c': c, 'm': 'OPEN', 'h': ph}, c)
     if o['st'] != 'OPENCONFIRM':
         return rec.lines
@@ -132,8 +132,8 @@ def c03j_run(tid, wcfg, cfgline, seed):
 def c03j_jobs(tier, seed):
     jobs = []
     n = 0
-    for hold in (0, 3, 4, 10, 45, 90, 180):
-        for _ in range(40 if tier == 'quick' else 1500):
+    for hold in (0, 3, 4, 5, 10, 20, 45, 90, 180):
+        for _ in range(35 if tier == 'quick' else 1500):
             wcfg = dict(tick=1.0 / UNIT, tnum=1, tden=UNIT, crt=20, idle=20, hold=hold, las=65001, ras=65002)
             jobs.append(('c03j', wcfg, seed * 1000003 + n))
             n += 1
@@ -185,6 +185,15 @@ def c12md5_run(tid, wcfg, cfgline, seed):
 def c12md5_jobs(tier, seed):
     jobs = []
     n = 0
+    # faults in the application handler's callbacks and in the TCP_NODELAY socket option call
+    faults = [dict(handler_fail={'send_open': [1]}), dict(handler_fail={'send_open': [2]}), dict(handler_fail={'send_open': [1, 2, 3]}),
+              dict(handler_fail={'open_received': [1]}), dict(handler_fail={'keepalive_received': [1, 2]}), dict(handler_fail={'on_connection_lost': [1]}),
+              dict(handler_fail={'on_established': [1]}), dict(nodelay_fail=[1]), dict(nodelay_fail=[2]), dict(nodelay_fail='all')]
+    for f in faults:
+        for _ in range(12 if tier == 'quick' else 300):
+            wcfg = dict(tick=10.0, crt=20, idle=20, hold=90, las=65001, ras=65002, **f)
+            jobs.append(('c12md5', wcfg, seed * 1000003 + n))
+            n += 1
     for fail in ([1], [2], [1, 2], [1, 3, 5], 'all', []):
         for crt in (20, 40):
             for _ in range(25 if tier == 'quick' else 600):
@@ -456,7 +465,13 @@ def c10_run(tid, wcfg, cfgline, state, cls, data):
         rec.step({'k': 'msg', 'c': 1, 'm': 'KA'}, 1)
     w.budget = BUDGET
     o = rec.step({'k': 'data', 'c': 1, 'hex': data.hex(), 'cls': cls, 'm': cls}, 1, data=data, extra={'flen': len(data), 'fz': cls})
-    if cls != 'FUZZ_RAW' and o['st'] == 'ESTABLISHED' and W.connectors[0].state == 'connected' and not W.connectors[0].transport.disconnecting:
+    alive = lambda x: x['st'] == 'ESTABLISHED' and W.connectors[0].state == 'connected' and not W.connectors[0].transport.disconnecting
+    if cls == 'FUZZ_UPD' and state == 'ESTABLISHED' and alive(o):
+        # the same frame once more: it must be handled exactly like the first time
+        first = ([n for n, p in o['rep']], [x['type'] for x in o['out']], o['st'])
+        o = rec.step({'k': 'data', 'c': 1, 'hex': data.hex(), 'cls': cls, 'm': cls}, 1, data=data, extra={'flen': len(data), 'fz': cls})
+        rec.lines[-1]['rptsame'] = first == ([n for n, p in o['rep']], [x['type'] for x in o['out']], o['st'])
+    if cls != 'FUZZ_RAW' and alive(o):
         o = rec.step({'k': 'data', 'c': 1, 'hex': PROBE.hex(), 'cls': 'PROBE', 'm': 'PROBE'}, 1, data=PROBE, extra={'flen': len(PROBE)})
         got = [canon(p) for n, p in o['rep'] if n == 'update_received']
         rec.lines[-1]['probeok'] = got == ref
@@ -593,6 +608,12 @@ def bodies_for(rule):
                 ('announce-lpmax', {'attr': dict(base, **{'5': 2147483647}), 'nlri': ['10.5.0.0/16']}, dict(u, valid=True, etype='UPDATE', nln=1, ats=[1, 2, 3, 5], lp=2147483647)),
                 ('withdraw', {'withdraw': ['10.5.0.0/16']}, dict(u, valid=True, etype='UPDATE', wdn=1)),
                 ('both', {'attr': dict(base), 'nlri': ['10.5.0.0/16'], 'withdraw': ['10.9.0.0/16', '10.8.0.0/16']}, dict(u, valid=True, etype='UPDATE', wdn=2, nln=1, ats=[1, 2, 3])),
+                # one UPDATE for two address families: IPv4 prefixes plus MP_REACH_NLRI (IPv6) and MP_UNREACH_NLRI (IPv6)
+                ('mixed-mp', {'attr': dict(base, **{'14': {'afi_safi': [2, 1], 'nexthop': '2001:db8::1', 'nlri': ['2001:db8:1::/48']}}), 'nlri': ['10.5.0.0/16']},
+                 dict(u, valid=True, etype='UPDATE', nln=1, ats=[1, 2, 3, 14])),
+                ('mixed-mp-both', {'attr': dict(base, **{'14': {'afi_safi': [2, 1], 'nexthop': '2001:db8::1', 'nlri': ['2001:db8:1::/48']},
+                                                         '15': {'afi_safi': [2, 1], 'withdraw': ['2001:db8:2::/48']}}), 'nlri': ['10.5.0.0/16'], 'withdraw': ['10.9.0.0/16']},
+                 dict(u, valid=True, etype='UPDATE', nln=1, wdn=1, ats=[1, 2, 3, 14, 15])),
                 ('empty', {}, dict(u, etype='UPDATE'))]
     if rule == 'send/route-refresh':
         return [('ipv4', {'afi': 1, 'safi': 1}, dict(u, valid=True, etype='RR')), ('unsupported-family', {'afi': 2, 'safi': 1}, dict(u, etype='RR')),
@@ -674,7 +695,11 @@ def c16_jobs(tier, seed):
     for rule, bname, body, rq in max_size_bodies():
         for state in ('ESTABLISHED', 'OPENCONFIRM'):
             jobs.append(('c16', dict(las=65001, ras=65002, hold=90), state, rule, 'POST', 'good', bname, body, rq))
-    for wcfg in (dict(las=65001, ras=65002, hold=90), dict(las=65001, ras=65001, hold=90)):
+    # the same sends with RIB maintenance switched on (--bgp-rib): bookkeeping must not change what is sent
+    for rule in ('send/update', 'send/bin_update'):
+        for (bname, body, rq) in bodies_for(rule):
+            jobs.append(('c16', dict(las=65001, ras=65002, hold=90, rib=True, afi_safi=['ipv4', 'ipv6']), 'ESTABLISHED', rule, 'POST', 'good', bname, body, rq))
+    for wcfg in (dict(las=65001, ras=65002, hold=90, afi_safi=['ipv4', 'ipv6']), dict(las=65001, ras=65001, hold=90)):
         for state in C16_STATES:
             for rule in rules:
                 for (bname, body, rq) in bodies_for(rule):
